@@ -462,7 +462,7 @@ class FullOps(TorchCalls):
             pass
         elif fn not in LIKE and a0 is not None and not a0.note.startswith("finite-test"):
             self.note_value_use(a0, node)
-            if fn not in CREATORS and fn not in ("matmul", "mm", "mv", "dot", "inner", "bmm", "vdot", "add", "sub", "subtract", "mul", "multiply", "div", "divide", "true_divide", "pow", "power"):
+            if fn not in CREATORS and fn not in ("tensordot", "matmul", "mm", "mv", "dot", "inner", "bmm", "vdot", "add", "sub", "subtract", "mul", "multiply", "div", "divide", "true_divide", "pow", "power"):
                 self.ev("op", node, op=fn, left=a0.short())
         # ---- RNG
         if fn in RNG_FUNCS or lib == "numpy.random.":
@@ -801,6 +801,13 @@ class FullOps(TorchCalls):
         if fn in ("matmul", "mm", "mv", "dot", "inner", "bmm", "vdot"):
             b = tv_of(args[1])
             return self.matmul(a0, b, node) if b is not None else self.unk(fn, node)
+        if fn == "tensordot" and len(args) >= 2:
+            # tensordot(a, b, dims=1) contracts the last axis of a with the first of b: the matrix product
+            dims = kwargs.get("dims", args[2] if len(args) > 2 else None)
+            b = tv_of(args[1])
+            if b is not None and isinstance(dims, Const) and dims.v == 1:
+                return self.matmul(a0, b, node)
+            return self.unk(fn, node)
         if fn in ("add", "sub", "subtract", "mul", "multiply", "div", "divide", "true_divide", "pow", "power"):
             b = tv_of(args[1])
             op = {"subtract": "sub", "multiply": "mul", "divide": "div", "true_divide": "div", "power": "pow"}.get(fn, fn)
